@@ -254,18 +254,18 @@ theorem fast_of_data (v : SimpleView) (pts : List Point) (ds : List PointDelta) 
   simp only [hn0, ↓reduceIte]
   rw [List.take_append, hfb]
   have hk : ((iterFromFlags none (ds.map (·.flag))).flatMap RepeatableFlag.bytes).length
-      ≤ min pts.length (((iterFromFlags none (ds.map (·.flag))).flatMap RepeatableFlag.bytes
+      ≤ min (2 * pts.length) (((iterFromFlags none (ds.map (·.flag))).flatMap RepeatableFlag.bytes
         ++ (xBytes ds ++ (yBytes ds ++ pad))).length) := by
     simp only [List.length_append, hcl]; omega
   rw [List.take_of_length_le hk]
-  have hff := fastFlags_items _ (List.take (min pts.length
+  have hff := fastFlags_items _ (List.take (min (2 * pts.length)
       (((iterFromFlags none (ds.map (·.flag))).flatMap RepeatableFlag.bytes
         ++ (xBytes ds ++ (yBytes ds ++ pad))).length)
       - ((iterFromFlags none (ds.map (·.flag))).flatMap RepeatableFlag.bytes).length)
       (xBytes ds ++ (yBytes ds ++ pad))) hne hwf
   rw [hel, hlen] at hff
   rw [hff]
-  simp only [hel, hlen, Nat.sub_self, List.replicate_zero, List.append_nil]
+  simp only [hel, hlen, ne_eq, not_true_eq_false, ↓reduceIte]
   rw [← hcl, List.drop_left]
   rw [fastCoords_x pts 0 0 ds _ (yBytes ds ++ pad) hr hd hexp]
   simp only []
